@@ -191,6 +191,7 @@ def _log(x):
 
 
 @ops.logaddexp.register(array, array)
+@ops.sample.register(array, array)
 def _safe_logaddexp_tensor_tensor(x, y):
     finfo = np.finfo(np.result_type(x))
     shift = np.clip(ops.max(ops.detach(x), ops.detach(y)), finfo.min, None)
@@ -198,6 +199,7 @@ def _safe_logaddexp_tensor_tensor(x, y):
 
 
 @ops.logaddexp.register(numbers.Number, array)
+@ops.sample.register(numbers.Number, array)
 def _safe_logaddexp_number_tensor(x, y):
     finfo = np.finfo(np.result_type(y))
     shift = np.clip(ops.detach(y), max(x, finfo.min), None)
@@ -205,6 +207,7 @@ def _safe_logaddexp_number_tensor(x, y):
 
 
 @ops.logaddexp.register(array, numbers.Number)
+@ops.sample.register(array, numbers.Number)
 def _safe_logaddexp_tensor_number(x, y):
     return _safe_logaddexp_number_tensor(y, x)
 
